@@ -353,10 +353,10 @@ func runCheck(c *Check, ctx *CheckCtx) int {
 		t0 := time.Now()
 		budget := u.Budget
 		if budget == 0 {
-			// a check's units share 12 minutes (quick) or 60 minutes (thorough); a unit that hits its share reports time_cap_hit
+			// a check's units share 12 minutes (quick) or 30 minutes (thorough); a unit that hits its share reports time_cap_hit
 			total := 12 * time.Minute
 			if ctx.Tier == "thorough" {
-				total = 60 * time.Minute
+				total = 30 * time.Minute
 			}
 			budget = total / time.Duration(len(units))
 			if budget < 90*time.Second {
